@@ -1,8 +1,7 @@
-PROP = {"engines": [("array", "derived", 3000), ("deque", "derived", 3000), ("hashtable", "derived", 2000)],
+PROP = {"engines": [("list", "derived", 2500), ("slist", "derived", 2000), ("array", "derived", 3000), ("deque", "derived", 3000), ("hashtable", "derived", 2000)],
         "level_text": "Coq theorems: subarray / copy_shallow / copy_deep / filter (array), copy_shallow / copy_deep / filter (deque from every layout), get_keys / get_values (hash table) "
                       "produce exactly the selected elements in source order, leave the source state unchanged, and the result satisfies the engine invariant with the source's "
                       "capacity, factor and allocator family - hence, by the engine's refinement theorem, it is a fully usable container that can grow. Independence is tied by "
                       "two-handle traces (mutate/destroy either side, re-observe the other), including >= capacity+1 appends to every result.",
         "assumptions": ["independence of source and result is by construction in a functional model and therefore only tied by correspondence",
-                        "cc_stack_filter gives its result the default expansion factor (the array's factor is private to cc_array.c)",
-                        "list/slist sublist/copy/filter are covered by the C04 engine (sublist_spec, copy_with_spec, filter_spec) and join this check when that engine's update lands"]}
+                        "cc_stack_filter gives its result the default expansion factor (the array's factor is private to cc_array.c)"]}
